@@ -242,10 +242,15 @@ pub fn check(sc: &Scenario, ex: &mut Exec) -> (Verdict, Option<String>) {
         ex.stats.probe("non_unique_output_keys");
         let dp_cols: Vec<String> = dp.columns.clone();
         let rank = |rs: &mut ResultSet, kidx: &[usize], counts: Option<&std::collections::BTreeMap<Vec<String>, usize>>| -> std::collections::BTreeMap<Vec<String>, usize> {
-            let aidx: Vec<usize> = q.aggs.iter().filter_map(|a| rs.col(&a.alias)).collect();
+            // (aggregates under an open finding about their argument - reciprocal logarithms, powers
+            // of negative bases, ratios - deviate by themselves: they do not take part in the
+            // ranking unless nothing else is left to rank by)
+            let deviates = |a: &simcommon::query::AggSpec| a.arg.starts_with("log2(") || a.arg.starts_with("log10(") || a.arg.starts_with("pow(") || a.arg.starts_with("power(") || a.arg.contains(" / ");
+            let rank_aggs: Vec<&simcommon::query::AggSpec> = if q.aggs.iter().any(|a| !deviates(a)) { q.aggs.iter().filter(|a| !deviates(a)).collect() } else { q.aggs.iter().collect() };
+            let aidx: Vec<usize> = rank_aggs.iter().filter_map(|a| rs.col(&a.alias)).collect();
             // a NULL aggregate (no non-NULL value in the group) ranks where the DP side's reading of
             // it ranks: at what an empty group reads
-            let zeros: Vec<f64> = q.aggs.iter().filter(|a| rs.col(&a.alias).is_some()).map(|a| dp_cols.iter().position(|c| c == &a.alias).map_or(0.0, |i| zero_of(&zero_row, i))).collect();
+            let zeros: Vec<f64> = rank_aggs.iter().filter(|a| rs.col(&a.alias).is_some()).map(|a| dp_cols.iter().position(|c| c == &a.alias).map_or(0.0, |i| zero_of(&zero_row, i))).collect();
             // (values rounded to 9 significant digits: the two sides add floats in another order,
             // equal aggregates of two groups must tie, not be ordered by their last bits)
             let sig = |v: f64| -> f64 {
@@ -439,9 +444,9 @@ pub fn check(sc: &Scenario, ex: &mut Exec) -> (Verdict, Option<String>) {
                             }
                         }
                     }
-                } else if (a.arg.starts_with("power(") || a.arg.starts_with("pow(")) && o.map_or(false, |o| o < 0.0) && d.map_or(false, |d| d == 0.0) {
+                } else if (a.arg.starts_with("power(") || a.arg.starts_with("pow(")) && d.zip(o).map_or(false, |(d, o)| o < d && close(d, zero_of(&zero_row, di), 0.0, 1e-9)) {
                     // known finding: pow is typed on non-negative bases only; a negative base falls
-                    // back to the co-domain [0, max] and the final clamp cuts a negative sum to 0
+                    // back to the co-domain [0, max] and the final clamp cuts a negative sum to 0 (read through the outer projection, if any)
                     class = "pow_negative_base".into();
                 } else if a.f == AggFn::Avg && !a.distinct && a.arg.contains(" / ") && !a.arg.contains('(') {
                     // known finding: the guarded division reads 0 (not NULL) where the denominator
